@@ -533,6 +533,13 @@ def _mk():
         cs.append(MonthStep(("milk", "meat", "other"), "large", mz))
         cs.append(MonthStep(("other", "meat", "milk"), "large", mz))
         cs.append(MonthStep(("meat", "other", "milk"), "medium", mz))
+        if os.environ.get("VERIF_TIER") == "thorough":
+            # every order of the three herds, third herd in each size class
+            import itertools
+            for order in itertools.permutations(("milk", "meat", "other")):
+                for size in ("small", "medium", "large"):
+                    if (order, size) not in ((("milk", "meat", "other"), "large"), (("other", "meat", "milk"), "large"), (("meat", "other", "milk"), "medium")):
+                        cs.append(MonthStep(order, size, mz))
     cs += [MonthZeroState("meat"), MonthZeroState("milk")]
     cs += [ChangeInPopulation(f, mz) for f in ("meat", "milk") for mz in (True, False)]
     cs += [HerdTail("meat"), HerdTail("milk")]
